@@ -35,6 +35,7 @@ CONSTANTS
     \* on-chain certificate classes of (X, s1)
     RegStates, RegKeys, RegWindows, RegUsages,
     RegOthers,              \* subset of BOOLEAN: may (X,s2) and (Y,s1) hold a valid certificate with key k2
+    TwoCNs,                 \* subset of BOOLEAN: TRUE = certificates with two CN attributes in the subject are in the universe
     \* request classes
     Routes, DTokens, GTokens, OTokens, Extras,
     \* TLS session resumption
@@ -45,8 +46,13 @@ Accounts      == {"X", "Y"}                 \* CN values that are well formed ak
 SerialUniverse == {"s1", "s2"}
 RegIds        == {"X/s1", "X/s2", "Y/s1"}   \* the (owner, serial) slots of the chain registry that are modelled
 
-None   == [state |-> "none", key |-> "-", window |-> "-", usage |-> "-"]
-Second == [state |-> "valid", key |-> "k2", window |-> "ok", usage |-> "client"]
+\* first: the FIRST common-name attribute of the certificate's subject (and issuer): "same" = the subject has one CN only,
+\* otherwise the account named by an additional CN attribute placed BEFORE the one that counts.  crypto/x509 reports the
+\* LAST CN attribute as Subject.CommonName; the chain (ParseAndValidateCertificate) and the gateway use that one: it is the
+\* `cn` of a certificate here and the owner of its registry slot.
+None      == [state |-> "none", key |-> "-", window |-> "-", usage |-> "-", first |-> "-"]
+Second    == [state |-> "valid", key |-> "k2", window |-> "ok", usage |-> "client", first |-> "same"]
+SecondTwo == [Second EXCEPT !.first = "X"]      \* Y's genuine, published certificate whose subject reads CN=X, CN=Y
 
 RegId(o, s)        == o \o "/" \o s
 Lookup(reg, o, s)  == IF RegId(o, s) \in DOMAIN reg THEN reg[RegId(o, s)] ELSE None
@@ -160,26 +166,33 @@ Served(c, reg, p) ==
 (***************************************************************************************************************)
 (* TLC evaluates UNION / \cup on large sets quadratically, so the universe is written as filters over products     *)
 (* of small sets and the two halves are never united: Init of MC_GatewayAuth is their disjunction.              *)
-EntriesXs1   == {None} \cup [state : RegStates, key : RegKeys, window : RegWindows, usage : RegUsages]
+EntriesXs1   == {None} \cup [state : RegStates, key : RegKeys, window : RegWindows, usage : RegUsages, first : {"same"}]
+                       \* X's own certificate whose subject reads CN=Y, CN=X
+                       \cup [state : RegStates, key : {"k1"}, window : {"ok"}, usage : {"client"}, first : {"Y" : b \in TwoCNs \ {FALSE}}]
 EntriesOther == {None} \cup {Second : b \in RegOthers \ {FALSE}}
+EntriesYs1   == EntriesOther \cup {SecondTwo : b \in TwoCNs \ {FALSE}}
 
-Regs == { [id \in RegIds |-> CASE id = "X/s1" -> a [] id = "X/s2" -> b [] OTHER -> y] :
-            a \in EntriesXs1, b \in EntriesOther, y \in EntriesOther }
+Regs == { r \in { [id \in RegIds |-> CASE id = "X/s1" -> a [] id = "X/s2" -> b [] OTHER -> y] :
+                    a \in EntriesXs1, b \in EntriesOther, y \in EntriesYs1 } :
+            \* the two-CN certificates are crossed with the plain registries only
+            /\ r["Y/s1"].first = "X" => (r["X/s2"] = None /\ r["X/s1"].first \in {"-", "same"})
+            /\ r["X/s1"].first = "Y" => r["X/s2"] = None }
 
-NoCert == [cn |-> "-", issuer |-> "-", serial |-> "-", key |-> "-", window |-> "-", usage |-> "-",
+NoCert == [cn |-> "-", first |-> "-", issuer |-> "-", serial |-> "-", key |-> "-", window |-> "-", usage |-> "-",
            chainLen |-> 0, der |-> "none", holds |-> FALSE]
 
-\* a certificate the client makes itself (and therefore holds)
-FreshCerts == [cn : CNs, issuer : Issuers, serial : Serials, key : Keys, window : Windows, usage : Usages,
-               chainLen : ChainLens \ {0}, der : {"fresh"}, holds : {TRUE}]
+\* a certificate the client makes itself (and therefore holds); with a second CN attribute in front if TwoCNs
+FreshCerts == { c \in [cn : CNs, first : {"same"} \cup {"Y" : b \in TwoCNs \ {FALSE}}, issuer : Issuers, serial : Serials,
+                       key : Keys, window : Windows, usage : Usages, chainLen : ChainLens \ {0}, der : {"fresh"}, holds : {TRUE}] :
+                  c.first = "Y" => (c.cn = "X" /\ c.window = "ok" /\ c.usage = "client" /\ c.chainLen = 1) }
 
 \* the client replays the very bytes X published (with or without owning the private key): the attributes are
 \* those of the registry entry
-OnchainUniverse == [cn : OnchainCNs, issuer : {"self"}, serial : SerialUniverse, key : RegKeys \cup {"k2"},
+OnchainUniverse == [cn : OnchainCNs, first : {"same", "X", "Y"}, issuer : {"self"}, serial : SerialUniverse, key : RegKeys \cup {"k2"},
                     window : RegWindows \cup {"ok"}, usage : RegUsages \cup {"client"},
                     chainLen : ChainLens \ {0}, der : {"onchain"}, holds : Holds]
 IsOnchainOf(c, reg) == LET e == Lookup(reg, c.cn, c.serial) IN
-                       e.state # "none" /\ c.key = e.key /\ c.window = e.window /\ c.usage = e.usage
+                       e.state # "none" /\ c.key = e.key /\ c.window = e.window /\ c.usage = e.usage /\ c.first = e.first
 
 CertUniverse == FreshCerts \cup OnchainUniverse \cup {NoCert : n \in ChainLens \cap {0}}
 CertFor(c, reg) == c.der # "onchain" \/ IsOnchainOf(c, reg)      \* c is a certificate that can be presented under reg
@@ -193,10 +206,12 @@ Paths == { p \in [route : Routes, dseq : DTokens, gseq : GTokens, oseq : OTokens
 
 \* the scope half varies the URL for a handful of client classes (genuine, forged in each way, none)
 ScopeRegs  == { r \in Regs : /\ r["X/s2"] = None
-                             /\ r["Y/s1"] # None => r["X/s1"].state = "valid"     \* the other tenant next to a genuine X
+                             /\ r["Y/s1"] # None => (r["X/s1"].state = "valid" /\ r["X/s1"].first = "same")   \* the other tenant next to a genuine X
                              /\ r["X/s1"].key \in {"-", "k1"} /\ r["X/s1"].window \in {"-", "ok"}
-                             /\ r["X/s1"].usage \in {"-", "client"} }
-ScopeCertUniverse == { c \in CertUniverse : \/ c.chainLen = 0
+                             /\ r["X/s1"].usage \in {"-", "client"}
+                             /\ r["X/s1"].first = "Y" => r["X/s1"].state = "valid" }
+ScopeCertUniverse == { c \in CertUniverse : (c.der = "fresh" => c.first = "same") /\
+                                            \/ c.chainLen = 0
                                             \/ /\ c.chainLen = 1 /\ c.cn \in {"X", "Y"} /\ c.serial = "s1" /\ c.holds
                                                /\ c.window = "ok" /\ c.usage = "client" }
 
@@ -234,7 +249,8 @@ Served2(c, reg, ch, present, p) ==
 
 ResumePaths == { p \in Paths : p.route = "lstatus" /\ p.gseq = "own" /\ p.oseq = "own" /\ p.extra # "badparams" }
 ResumeCases == { k \in [kind : {"resume"}, cert : ScopeCertUniverse, reg : ScopeRegs, change : Changes,
-                        present : Presents, path : ResumePaths] : CertFor(k.cert, k.reg) /\ k.reg["Y/s1"] = None }
+                        present : Presents, path : ResumePaths] :
+                    CertFor(k.cert, k.reg) /\ k.reg["Y/s1"] = None /\ k.reg["X/s1"].first \in {"-", "same"} }
 
 (***************************************************************************************************************)
 (* THE PROPERTY, parametrised by an outcome.  J1 instantiates it with the outcome the transcribed procedure     *)
